@@ -119,8 +119,13 @@ impl System {
 
         // cancel pending events (i.e. undelivered messages) from the crashed node
         let node_id = self.sim.lookup_id(node_name);
+        // (cancel_and_get_events also returns previously cancelled events, these are already accounted for)
+        let live: std::collections::HashSet<u64> = self.sim.dump_events().iter().map(|e| e.id).collect();
         let cancelled = self.sim.cancel_and_get_events(|e| e.src == node_id);
         for event in cancelled {
+            if !live.contains(&event.id) {
+                continue;
+            }
             cast!(match event.data {
                 MessageReceived {
                     id,
